@@ -44,6 +44,9 @@ func Streams(got run.Result, want refjq.Result) Verdict {
 	if got.Budget {
 		return Verdict{Discard: "budget/gojq"}
 	}
+	if refjq.IsNativePanic(want.Err) {
+		return Verdict{Msg: want.Err.Error()}
+	}
 	if d := want.Discard(); d != "" {
 		return Verdict{Discard: d}
 	}
